@@ -215,12 +215,12 @@ def plan_case(ctx):
             h.trees["unrelated"] = up
         for n in h.trees:
             _clean(h.wt(n))
-    except (errors.BzrError, OSError) as e:
-        ctx.discard("workload:%s" % type(e).__name__)
     except AttributeError as e:
-        if "PointlessCommit" not in str(e):
+        if "PointlessCommit" not in str(e):  # vf.gen.build_history names breezy.errors.PointlessCommit (lives in breezy.commit)
             raise
         ctx.discard("workload:gen-pointless-commit")
+    except Exception as e:  # history construction is not the operation under test (see C16: DirstateCorrupt from the pre-built dirstate on some trees)
+        ctx.discard("workload:%s" % type(e).__name__)
     ninv = rng.randint(10, 14) if ctx.tier == "quick" else rng.randint(14, 24)
     names = sorted(h.trees)
     last_plan = None
@@ -251,6 +251,8 @@ def plan_case(ctx):
             if cands:
                 start = rng.choice(cands)
                 revision = [start, stop]
+            else:
+                stop = xtip
         ctx.info = {"rebase": x, "upstream": u, "onto": (onto or b"").decode(), "revision": [(r_ or b"").decode() for r_ in (revision or [])], "always": always,
                     "log": h.log[-30:]}
         with Tap() as tap:
@@ -508,6 +510,7 @@ def replay_case(ctx):
     feat = trunk.branch.controldir.sprout(os.path.join(root, "feat")).open_workingtree()
     shape = []
     merged = False
+    dirty = set()  # merge revisions that carry changes of their own
     for i in range(rng.randint(2, 5)):
         r = rng.random()
         if r < 0.3:
@@ -518,11 +521,14 @@ def replay_case(ctx):
             if Branch.open(trunk.basedir).last_revision() not in H.ancestry(H.parent_map_of(feat.branch.repository), [feat.last_revision()]):
                 with feat.lock_write():
                     feat.merge_from_branch(trunk.branch)
-                if rng.random() < 0.5:
+                own = rng.random() < 0.3
+                if own:
                     n[0] += 1
                     _side_op(rng, feat, "fdir", n[0])
                 n[0] += 1
                 feat.commit("merge trunk %d" % n[0], rev_id=b"feat-merge-%d" % n[0], timestamp=1600000000 + n[0] * 100, timezone=0)
+                if own:
+                    dirty.add(b"feat-merge-%d" % n[0])
                 merged = True
                 shape.append("M")
                 continue
@@ -595,8 +601,10 @@ def replay_case(ctx):
                 ctx.check((nw.timestamp, nw.timezone) == (o.timestamp, o.timezone), "replay:timestamp", "timestamp/zone %r became %r" % ((o.timestamp, o.timezone), (nw.timestamp, nw.timezone)), d)
                 ctx.check(nw.properties.get("rebase-of") == old.decode(), "replay:rebase-of", "rebase-of is %r" % nw.properties.get("rebase-of"), d)
                 ctx.check(o.committer in nw.get_apparent_authors() or o.committer == nw.committer, "replay:author-lost", "original committer %r not an author of the copy" % o.committer, d)
-                if set(plan) != set(our_new or ()):
-                    continue  # a merge revision was left out (skip mode): whatever it changed itself is dropped by design, contents are not comparable
+                if set(plan) != set(our_new or ()) or (dirty & set(our_new or ())):
+                    # a merge revision was left out (skip mode: whatever it changed itself is dropped by design) or a merge that carries changes of its
+                    # own is replayed (merge base choice is a documented FIXME of the replayer): contents are not comparable
+                    continue
                 ctx.count("replay_contents")
                 osnap = observe.snap_tree(repo.revision_tree(old), ids=False)
                 nsnap = observe.snap_tree(repo.revision_tree(new), ids=False)
